@@ -23,6 +23,7 @@ type DP struct {
 	Str    string
 	Rate   float64
 	TS     int64
+	Empty  bool // set datapoint that only creates the series (a set without members)
 }
 
 type Series struct {
@@ -71,7 +72,9 @@ func (a Agg) Add(d DP) {
 		s.Values = append(s.Values, d.Value)
 		s.Sampled += 1 / rate
 	case "s":
-		s.Members[d.Str] = true
+		if !d.Empty {
+			s.Members[d.Str] = true
+		}
 	case "g":
 		if d.TS > s.TS || len(s.GaugeCands) == 0 {
 			s.GaugeCands = []float64{d.Value}
